@@ -1247,3 +1247,11 @@ func init() {
 		return tuple{[]value{uint8('y'), uint8('a'), uint8('m'), uint8('l')}, iface{}}
 	}
 }
+
+func init() {
+	// math/rand: outputs are unconstrained by contract; a fixed mid value keeps backoff jitter neutral
+	externals["math/rand.Float64"] = func(fr *frame, args []value) value { return float64(0.5) }
+	externals["math/rand/v2.Float64"] = func(fr *frame, args []value) value { return float64(0.5) }
+	externals["math/rand.Int63n"] = func(fr *frame, args []value) value { return int64(0) }
+	externals["math/rand.Intn"] = func(fr *frame, args []value) value { return 0 }
+}
